@@ -128,6 +128,14 @@ def check(ctx):
         r2 = ctx.an.reach(f, [q for s in incs for q in ctx.an.after(f, s)])
         dbl = [s for s in incs if s in r2]
         ctx.ob("R-PAIR", fid, fn + "/count-once", not dbl, "the reader is counted once per acquisition" if not dbl else "%s counts a reader twice on one path" % fn, f.where(incs[0]))
+        # a counted reader always gets a guard (no path that counts and then leaves without one)
+        starts = [q for s in incs for q in ctx.an.after(f, s)]
+        r3 = ctx.an.reach(f, starts, blocked=guards)
+        leak = [x for x in f.ret_points() if x in r3]
+        ctx.ob("R-PAIR", fid, fn + "/counted-reader-gets-guard", not leak,
+               "after `*r += 1` every path to return constructs the read guard that will take the count back" if not leak else
+               "%s can count a reader and then return without handing out a guard: the reader count leaks, later readers skip the global lock while a writer holds it" % fn,
+               f.where(incs[0]), detail=ctx.an.fmt_path(f, ctx.an.path(f, starts, leak, blocked=guards)) if leak else None)
         # first reader takes the global lock before being counted: the `*r == 0` true edge must pass lock()/try_lock()
         acq = Call(re.escape(LK) + "|" + re.escape(TL), transitive=False)
         zero = lambda a: a.kind == "cmp" and a.op == "Eq" and (is_const(0)(a.b) or is_const(0)(a.a))
